@@ -208,6 +208,10 @@ pub enum Host {
     Wrap,
     /// scripted predicate over an int argument: table value -> T/F/E (missing -> false)
     Script(HashMap<i64, char>),
+    /// positional typed parameters (kinds by position): each argument is evaluated and
+    /// type-checked in turn, a mismatch or a missing argument is an error before the next
+    /// argument is touched and before the function is invoked; returns the first argument
+    Typed(Vec<&'static str>),
 }
 
 pub struct Env {
@@ -594,6 +598,22 @@ fn eval_call(name: &str, recv: Option<&E>, args: &[E], env: &mut Env) -> R {
             }
             _ => {}
         }
+        if let Host::Typed(kinds) = &h {
+            let mut vals = vec![];
+            for (k, kind) in kinds.iter().enumerate() {
+                let a = match args.get(k) {
+                    Some(a) => a,
+                    None => return terr(),
+                };
+                let v = eval(a, env)?;
+                if *kind != "any" && v.kind() != *kind {
+                    return terr();
+                }
+                vals.push(v);
+            }
+            env.log.push(Ev::Call(name.to_string(), vals.clone()));
+            return vals.first().cloned().ok_or(Stop::Err(EC::Type));
+        }
         for a in args {
             vals.push(eval(a, env)?);
         }
@@ -610,7 +630,7 @@ fn eval_call(name: &str, recv: Option<&E>, args: &[E], env: &mut Env) -> R {
                 },
                 _ => terr(),
             },
-            Host::Wrap => unreachable!(),
+            Host::Wrap | Host::Typed(_) => unreachable!(),
         };
     }
     if !BUILTINS.contains(&name) {
